@@ -20,8 +20,23 @@ def encode_forest(desc):
         toks.extend(["D", str(d["offset"]), str(d["tag"]), "1" if d["has_children"] else "0", str(len(d["attrs"]))])
         for a in d["attrs"]:
             v = a["value"]
-            ref = str(v["ref"]) if isinstance(v, dict) and "ref" in v else "-"
-            toks.extend([str(a["name"]), str(a["form"]), ref])
+            ref = num = blk = st = "-"
+            if isinstance(v, bool):
+                num = "1" if v else "0"
+            elif isinstance(v, int):
+                num = str(v)
+            elif isinstance(v, dict):
+                if "ref" in v:
+                    ref = str(v["ref"])
+                elif "implicit" in v:
+                    num = str(v["implicit"])
+                elif "raw" in v:
+                    num = str(v["signed"] if a["form"] == forest.DW_FORM["sdata"] else v["raw"])
+                elif "block" in v:
+                    blk = ".".join(str(b) for b in v["block"]) or "e"
+                elif "str" in v:
+                    st = zwcorr.hx(v["str"].encode("utf-8")) if v["str"] else "e"
+            toks.extend([str(a["name"]), str(a["form"]), ref, num, blk, st])
         toks.append(str(len(d["children"])))
         for c in d["children"]:
             die(c)
@@ -135,3 +150,52 @@ def run_replay(ctx):
             print("expected: %r" % (rp.get("expected"),))
     finally:
         fs.cleanup()
+
+
+def parse_vals(s):
+    """canonical harness rendering (space-separated values) -> list of ('c', dom, int) | ('s', bytes) | ('q', [..]) |
+    ('x', type, text) | ('a', [(start, len)..]) | ('f',)"""
+    pos = [0]
+
+    def skip_pos():
+        if pos[0] < len(s) and s[pos[0]] == "@":
+            pos[0] += 1
+            while pos[0] < len(s) and s[pos[0]].isdigit():
+                pos[0] += 1
+
+    def one():
+        c = s[pos[0]]
+        if c == "[":
+            pos[0] += 1
+            items = []
+            while s[pos[0]] != "]":
+                if s[pos[0]] == " ":
+                    pos[0] += 1
+                    continue
+                items.append(one())
+            pos[0] += 1
+            skip_pos()
+            return ("q", items)
+        j = s.index(")", pos[0])
+        body = s[pos[0] + 2: j]
+        kind = c
+        pos[0] = j + 1
+        skip_pos()
+        if kind == "c":
+            d, v = body.rsplit("|", 1)
+            return ("c", d, int(v))
+        if kind == "s":
+            return ("s", zwcorr.unhx(body) if body and body != "e" else b"")
+        if kind == "x":
+            t, h = body.split("|", 1)
+            return ("x", t, zwcorr.unhx(h).decode("utf-8", "replace") if h else "")
+        if kind == "a":
+            return ("a", [tuple(int(x) for x in r.split("+")) for r in body.split(",") if r])
+        return ("f",)
+    out = []
+    while pos[0] < len(s):
+        if s[pos[0]] == " ":
+            pos[0] += 1
+            continue
+        out.append(one())
+    return out
